@@ -24,7 +24,7 @@ ENTRY = dict(
         "event continues once per firing it was listening for)"),
     technique="Lean 4 proof (inductive invariants over a small-step machine) + exhaustive actor differential on the grid of the quantifier",
     lean_modules=["Bpmn.Props.C13", "Bpmn.Props.C13Current"],
-    families=["c13", "c13e"],
+    families=["c13", "c13e", "c13e2"],
     exhaustive=True,
     multi_seed=False,
     rule=("definitions: date (future / now / past), duration (10 s / 0), cycles R0..R3 and unbounded x {no start, start "
@@ -44,7 +44,13 @@ ENTRY = dict(
           "increasing sequence of up to 2 (thorough: 3) clock settings from the same grid; after each the harness waits "
           "until no goroutine can run and records listening / timer event observed / continued / end completed / "
           "armed wake-ups; compared with the timer model feeding a one-token catch event, and the clause 'continues "
-          "exactly once per firing it was listening for' is evaluated on the traces"),
+          "exactly once per firing it was listening for' is evaluated on the traces. Family c13e2: two or three "
+          "instances of that process (duration PT10S, cycle R2/PT10S, a date) created from the same parsed definitions "
+          "through ONE engine, ONE fan-out and ONE timer definition-instance builder (as /repo/model does) at "
+          "different clock readings (second instance before / just before / after the first one's due time), then "
+          "every increasing sequence of up to 2 (thorough: 3) clock settings around each instance's own due time; per "
+          "instance: compared with its own timer model armed at its creation time, and on the traces: continues exactly "
+          "once, at the first setting reaching ITS OWN due time, never before"),
     trusted_base=_TB + [
         "modelled, not verified: Go's select (an explicit choice among the ready cases), channel rendezvous with an "
         "always-ready consumer, qri-io/iso8601 parsing (the harness feeds ISO text through timer.New and the parsed "
